@@ -71,6 +71,11 @@ def main(tier, seed):
                                     ("thrice_declared", "types\n    f : Finite(0, 2, 4)\nend\n", body2, ["f", "s", "f**2"])):
         items.append({"id": "decl-" + name, "text": decl + text, "T": None, "goals": goals, "points": [{}],
                       "origin": "declared vs inferred types: " + name, "user_typed": ["x", "f"]})
+    # second-order recurrences with irrational roots next to a rational dominant root (numeric root options)
+    items.append({"id": "roots-mixed", "T": None, "goals": ["x", "y", "s", "s*x"], "points": [{}], "origin": "irrational roots and the root 1",
+                  "text": "x = 1\ny = 0\ns = 0\nb = 0\nt = 0\nwhile true:\n    b = Bernoulli(1/2)\n    t = x\n    x = x/4 + y/2 + b\n    y = t\n    s = s + 1\nend\n"})
+    items.append({"id": "roots-pell-plus-2", "T": None, "goals": ["x", "w", "x*w"], "points": [{}], "origin": "irrational roots and the root 2",
+                  "text": "x, y = 0, 1\nw = 1\nwhile true:\n    x, y = y, x + y/2\n    w = 2*w + 1\nend\n"})
     variants = [("", {}), ("-c2a", {"cond2arithm": True}), ("-tc", {"transform_categoricals": True}),
                 ("-cyc", {"__force_cyclic": True}), ("-nr", {"numeric_roots": True, "numeric_eps": 1e-10}),
                 ("-ncr", {"numeric_croots": True})]
